@@ -33,6 +33,7 @@ import (
 	"github.com/jamf/regatta/replication/backup"
 	"github.com/jamf/regatta/replication/snapshot"
 	"github.com/jamf/regatta/storage"
+	"github.com/jamf/regatta/storage/table/fsm"
 	"google.golang.org/grpc"
 
 	"verifharness/internal/cluster"
@@ -73,6 +74,12 @@ func main() {
 			runBackup(r, w.Case)
 		case "pit":
 			runPIT(r, w.Case)
+		case "fsm-capture":
+			for i := 0; i < 20 && r.Violations() == 0; i++ {
+				if why, _, err := fsmx.CaptureUnderWrites(w.Case.Seed, fsm.SnapshotRecoveryType(i%2), 1000, 2+i%3); err == nil && why != "" {
+					r.Violation("capture-is-not-the-state-at-its-declared-index", why, w)
+				}
+			}
 		}
 		r.Finish()
 	}
@@ -134,6 +141,24 @@ func main() {
 	for i, n := 0, r.Pick(1, 6); i < n; i++ {
 		runPIT(r, caseID{Kind: "pit", Seed: r.Seed*3_000_003 + int64(i)})
 	}
+	// D: table streams taken from the state machine while it applies writes as fast as it can
+	for i, n := 0, r.Pick(16, 300); i < n; i++ {
+		why, st, err := fsmx.CaptureUnderWrites(r.Seed*4_000_003+int64(i), fsm.SnapshotRecoveryType(i%2), 1000, 2+i%3)
+		if err != nil {
+			r.Inconclusive("capture layer: " + err.Error())
+			continue
+		}
+		r.Count("fsm_captures_under_writes", st.Captures)
+		r.Count("fsm_captures_at_an_index_already_overtaken", st.CapturesMidWrite)
+		r.Count("fsm_capture_distinct_indices", int64(st.DistinctIndices))
+		if why != "" {
+			r.Violation("capture-is-not-the-state-at-its-declared-index", "[state machine level, writer applying single entries back to back] "+why, witness{Case: caseID{Kind: "fsm-capture", Seed: r.Seed*4_000_003 + int64(i)}, What: why})
+			continue
+		}
+		r.Eval(1)
+	}
+	r.FloorCount("fsm_captures_under_writes", int64(r.Pick(12000, 400000)))
+	r.FloorCount("fsm_capture_distinct_indices", int64(r.Pick(1000, 20000)))
 	r.FloorNontrivial(int64(r.Pick(15, 150)))
 	r.FloorCount("restores_judged", int64(r.Pick(30, 300)))
 	r.FloorCount("restores_with_several_proposals", int64(r.Pick(10, 100)))
